@@ -1,9 +1,106 @@
 (* C13 — mdiff chunks always describe a correct patch from Left to Right.
-   Only statements, each closed by [exact] of a lemma proved in Mdiff/MdiffProofs*.v. *)
+   Only statements, each closed by [exact] of a lemma proved in Mdiff/MdiffProofs*.v.
+
+   Reading guide (Mdiff/MdiffSpec.v):
+     script_ok L R es     executing es consumes exactly L and produces exactly R (or es = [] and
+                          L = R: what slice.EditScript returns for equal inputs)
+     chunk_ok L R c       c's edits consume exactly Left[LStart,LEnd) and produce exactly
+                          Right[RStart,REnd), 1-based half-open ranges inside the inputs
+     separated 1 cs       consecutive chunks ascending, disjoint and not adjacent (>= 1 line apart)
+     apply_chunks L cs    replace each chunk's left range by what its edits produce
+     ctx_of n c0 c1       c1 is c0 with pre/post context Emit edits of at most n lines, ranges
+                          extended by exactly those lines, nothing else changed
+     changes es           the non-Emit edits of es, in order
+   The model functions new_chunks / add_context / unify_chunks (Mdiff/MdiffModel.v) follow
+   mdiff.go statement by statement; Ok = no panic.  The edit script is an input: the theorems hold
+   for EVERY script that transforms Left into Right (C13_composed plugs in slice.EditScript). *)
 From Coq Require Import ZArith List Bool.
 Import ListNotations.
-From Mds Require Import Mdiff.MdiffModel Mdiff.MdiffSpec Mdiff.MdiffProofsRefuted.
+From Mds Require Import Mdiff.MdiffModel Mdiff.MdiffSpec Mdiff.MdiffProofs Mdiff.MdiffProofsRefuted.
 Local Open Scope Z_scope.
+
+(* After New: every chunk is right; the chunks are ascending, disjoint, not adjacent; substituting
+   them turns Left into Right; they contain no context; they hold exactly the changing edits of
+   the script (when none of those is empty, as in every canonical script); Edits is the script. *)
+Theorem C13_new : forall (T : Type) (L R : list T) (es : list (edit T)),
+    script_ok L R es ->
+    let cn := new_chunks es in
+    Forall (chunk_ok L R) cn /\ separated 1 cn /\ apply_chunks L cn = R /\
+    Forall (fun c => Forall (fun e => is_emit e = false) (edits c)) cn /\
+    (Forall (fun e => is_emit e = false -> edit_consume e <> [] \/ edit_produce e <> []) es ->
+     flat_map edits cn = changes es) /\
+    Edits (new_diff L R es) = es /\ Left (new_diff L R es) = L /\ Right (new_diff L R es) = R.
+Proof. exact new_correct. Qed.
+Print Assumptions C13_new.
+
+(* After AddContext n (n >= 0): no panic; every chunk is still right (chunks may now overlap);
+   chunk i is New's chunk i plus at most n context lines before and after. *)
+Theorem C13_add_context : forall (T : Type) (eqb : T -> T -> bool),
+    (forall a, eqb a a = true) ->
+    forall (L R : list T) (es : list (edit T)) (n : Z),
+    script_ok L R es -> 0 <= n ->
+    exists ca,
+      add_context eqb L R n (new_chunks es) = Ok ca /\
+      Forall (chunk_ok L R) ca /\
+      Forall2 (ctx_of n) (new_chunks es) ca.
+Proof. exact add_context_correct. Qed.
+Print Assumptions C13_add_context.
+
+(* n <= 0: AddContext returns the chunks unchanged (any chunks). *)
+Theorem C13_add_context_nonpositive : forall (T : Type) (eqb : T -> T -> bool) (L R : list T) (n : Z) (cs : list (chunk T)),
+    n <= 0 -> add_context eqb L R n cs = Ok cs.
+Proof. exact add_context_nonpositive. Qed.
+Print Assumptions C13_add_context_nonpositive.
+
+(* After AddContext n and Unify: no panic; every chunk is right; ascending, disjoint, not
+   adjacent; substituting the chunks turns Left into Right; every chunk is a context-free chunk
+   (of a list [base] that is itself a correct, separated patch from Left to Right) plus at most n
+   context lines before and after; and the non-Emit edits of the chunks are still exactly those
+   of New's chunks, in order (context is only ever added as Emit edits). *)
+Theorem C13_unify : forall (T : Type) (eqb : T -> T -> bool),
+    (forall a, eqb a a = true) ->
+    forall (L R : list T) (es : list (edit T)) (n : Z),
+    script_ok L R es -> 0 <= n ->
+    exists ca cu base,
+      add_context eqb L R n (new_chunks es) = Ok ca /\
+      unify_chunks ca = Ok cu /\
+      Forall (chunk_ok L R) cu /\ separated 1 cu /\ apply_chunks L cu = R /\
+      Forall2 (ctx_of n) base cu /\
+      Forall (chunk_ok L R) base /\ separated 1 base /\ apply_chunks L base = R /\
+      changes (flat_map edits base) = flat_map edits (new_chunks es) /\
+      changes (flat_map edits cu) = flat_map edits (new_chunks es).
+Proof. exact unify_correct. Qed.
+Print Assumptions C13_unify.
+
+(* The Diff methods AddContext and Unify return a Diff with the same Edits, Left and Right (in the
+   model; "not disturbed" through shared slices is an aliasing fact: correspondence only). *)
+Theorem C13_edits_kept : forall (T : Type) (eqb : T -> T -> bool) (n : Z) (d d' : diff T),
+    (diff_add_context eqb n d = Ok d' \/ diff_unify d = Ok d') ->
+    Edits d' = Edits d /\ Left d' = Left d /\ Right d' = Right d.
+Proof. exact diff_methods_keep. Qed.
+Print Assumptions C13_edits_kept.
+
+(* The hypotheses are satisfiable by a non-trivial input: Left=[a a b] Right=[a b b] with the
+   script slice.EditScript returns for it; two chunks after New, merged by Unify at n = 2. *)
+Example C13_new_example :
+  script_ok f4_left f4_right f4_script /\ length (new_chunks f4_script) = 2%nat.
+Proof. split; [exact f4_script_ok|reflexivity]. Qed.
+Example C13_add_context_example :
+  script_ok f4_left f4_right f4_script /\ (forall a, Nat.eqb a a = true) /\ 0 <= 2 /\
+  exists ca, add_context Nat.eqb f4_left f4_right 2 (new_chunks f4_script) = Ok ca /\ length ca = 2%nat.
+Proof.
+  split; [exact f4_script_ok|]. split; [exact PeanoNat.Nat.eqb_refl|]. split; [discriminate|].
+  eexists. split; [vm_compute; reflexivity|reflexivity].
+Qed.
+Example C13_add_context_nonpositive_example : (-1) <= 0.
+Proof. discriminate. Qed.
+Example C13_unify_example :
+  exists cu, bind (add_context Nat.eqb f4_left f4_right 2 (new_chunks f4_script)) unify_chunks = Ok cu /\
+             length cu = 1%nat.
+Proof. eexists. split; [vm_compute; reflexivity|reflexivity]. Qed.
+Example C13_edits_kept_example :
+  exists d', diff_add_context Nat.eqb 2 (new_diff f4_left f4_right f4_script) = Ok d' /\ Edits d' = f4_script.
+Proof. eexists. split; [vm_compute; reflexivity|reflexivity]. Qed.
 
 (* For the record: the code before repair 82c6b7a (findContext not bounded by the gaps to the
    neighbouring chunks) violated the property: Left=[a a b] Right=[a b b] n=2 yields, after
